@@ -406,6 +406,37 @@ def trig_worst_cases(count):
         res += [p, (-p) & M32]
     return res
 
+SCANS = {'C06': ['sqrt'], 'C09': ['round', 'floor', 'ceil', 'trunc', 'fract'], 'C07': ['to_i32', 'to_u32', 'to_i64', 'to_u64', 'from_i32', 'from_u32'],
+         'C03': ['to_f64', 'to_f32'], 'C02': ['from_f32', 'p16_from_f32', 'p8_from_f32'], 'C08': ['to_p16_m', 'to_p8_m'], 'C01': ['p16-pairs']}
+SCAN_LOG = []
+def exhaustive_scans(pid, tier):
+    """run the harness's exhaustive scans that belong to the property; returns the candidate lines (empty on a correct tree)"""
+    import subprocess, time
+    ops = list(SCANS.get(pid, []))
+    if pid == 'C16' and tier == 'thorough': ops = sorted({o for v in SCANS.values() for o in v})
+    exe = os.path.join(core.TARGET, 'release', 'verif_harness')
+    out = []
+    for op in ops:
+        t0 = time.time()
+        if op == 'p16-pairs':
+            stride = 1 if (tier == 'thorough' or pid == 'C01') else 16
+            cmd = [exe, '--p16-scan', str(stride), '500']; space = (65536 // stride) * 65536 * 4
+        elif op == 'sqrt': cmd = [exe, '--sqrt-scan', '2000']; space = (1 << 31) - 1
+        else: cmd = [exe, '--scan', op, '2000']; space = 1 << 32
+        try:
+            r_ = subprocess.run(cmd, capture_output=True, text=True, timeout=1800)
+            ok = r_.returncode == 0
+            cand = [l for l in r_.stdout.split('\n') if l.strip()] if ok else []
+        except Exception:
+            ok = False; cand = []
+        if op == 'sqrt': cand = ['p32 sqrt ' + c for c in cand]
+        SCAN_LOG.append({'scan': op, 'inputs': space if ok else 0, 'candidates': len(cand), 'wall_s': round(time.time() - t0, 1), 'ran': ok})
+        for c in cand:
+            out.append(c)
+            t = c.split()
+            if t[0] == 'p32' and t[1] in ('sqrt', 'round', 'floor', 'ceil', 'trunc', 'fract'): out.append('p32 Float_%s %s' % (t[1], t[2]))
+    return out
+
 def extra_streams(pid, tier, rng, scale):
     from .gen_inputs import interesting_posits
     lines = []
@@ -510,19 +541,10 @@ def extra_streams(pid, tier, rng, scale):
         if os.path.exists(cache):
             for x_ in open(cache).read().split():
                 lines.append('p32 sqrt ' + x_)
-        # exhaustive SEARCH (not a proof): the freshly built release harness compares P32E2::sqrt on all 2^31 - 1 positive patterns with
-        # its own exact integer reference (6 s); every disagreeing or panicking input becomes a line judged by the specification below
-        if pid == 'C06' or tier == 'thorough':
-            import subprocess
-            exe = os.path.join(core.TARGET, 'release', 'verif_harness')
-            try:
-                r_ = subprocess.run([exe, '--sqrt-scan', '2000'], capture_output=True, text=True, timeout=1200)
-                cand = r_.stdout.split() if r_.returncode == 0 else []
-            except Exception:
-                cand = []
-            core.NOTES.append('sqrt-scan: %d candidate inputs of 2^31-1' % len(cand)) if hasattr(core, 'NOTES') else None
-            for x_ in cand:
-                lines.append('p32 sqrt ' + x_); lines.append('p32 Float_sqrt ' + x_)
+    # exhaustive SEARCHES (not proofs): the freshly built release harness runs the operation on ALL 2^32 inputs (all 2^32 operand pairs for
+    # the P16E1 arithmetic) and compares with its own exact integer reference (own posit decoder/encoder, u128 arithmetic: harness/src/
+    # scan.rs, hard16.rs, hard.rs); every disagreeing or panicking input becomes a protocol line that the specification judges below
+    for ln in exhaustive_scans(pid, tier): lines.append(ln)
     if pid == 'C15':
         import math
         sys_path = os.path.join(core.VERIF, 'tools')
